@@ -68,6 +68,7 @@ def runStep (s : RunSt) (line : String) : RunSt × String :=
     | none => (s, "bad-op")
   | "stress-sadd" :: _ => (s, "ok")        -- every one-at-a-time order admits at most `max`
   | "stress-incwindow" :: _ => (s, "ok")
+  | "stress-queue-publish" :: _ => (s, "ok")   -- Properties.C18.no_request_lost: no schedule forgets a waiting request
   | "run" :: ws => match kv ws "t" with
     | some t =>
       let r := runTxn (s.scripts.length + 1) s.scripts s.tctx (pctDec t)
@@ -92,6 +93,7 @@ def judgeStep (s : JudgeSt) (op out : String) : JudgeSt :=
     | none => { s with bad := some "unparsable-script" }
   | "stress-sadd" :: _ => if out == "ok" then s else { s with bad := some ("atomic-core-bound-exceeded:" ++ pctEnc out) }
   | "stress-incwindow" :: _ => if out == "ok" then s else { s with bad := some ("atomic-core-bound-exceeded:" ++ pctEnc out) }
+  | "stress-queue-publish" :: _ => if out == "ok" then s else { s with bad := some ("queued-request-forgotten-by-loop:" ++ pctEnc out) }
   | "run" :: _ => match parseObs out with
     | some os => { s with obs := s.obs ++ os }
     | none => { s with bad := some ("unparsable-observations:" ++ pctEnc out) }
